@@ -9,7 +9,7 @@
 //! vector - every position takes every value (no null/empty elements: not values of a vector).
 //! `top_cases` adds null, not-set and the zero-length empty value.
 
-use cqlref::value::{Native, Type, Value};
+use crate::refvalue::{Native, Type, Value};
 use serde_json::{Value as J, json};
 
 fn s(x: &str) -> String {
